@@ -1,4 +1,5 @@
 import PyrexVerif.D.H5
+import PyrexVerif.D.H5Mc
 /-!
 Line-protocol handler shared by the C11 and C12 drivers (see `harness/props/h5lib.py`).
 
@@ -7,6 +8,7 @@ Line-protocol handler shared by the C11 and C12 drivers (see `harness/props/h5li
     FILE  := OPTS HIST
     N     := Python None where an optional integer is expected
 
+    mc <nwrites> { <maxWaves> <ncols> { <name> <len> <bit>* }* }*      (component-trigger table, H5Mc)
     dump FILE | iter FILE <sr> | int FILE <key> | slice FILE <sr> <a> <b> <c> | fg <sr> <nfiles> FILE*
 -/
 namespace H5Proto
@@ -21,6 +23,9 @@ def pBool : P Bool
   | "1" :: r => some (true, r)
   | "0" :: r => some (false, r)
   | _ => none
+def pStr : P String
+  | t :: r => some (t, r)
+  | [] => none
 def pOptInt : P (Option Int)
   | "N" :: r => some (none, r)
   | t :: r => t.toInt?.map (fun i => (some i, r))
@@ -115,8 +120,31 @@ def errS : Err → String
 def fracF (k n T : Nat) : Nat :=
   (((k + 1).toFloat / n.toFloat * T.toFloat).floor).toUInt64.toNat
 
+def pCol : P (String × List Bool) := fun ts => do
+  let (name, ts) ← pStr ts
+  let (len, ts) ← pNat ts
+  let (vals, ts) ← pMany pBool len ts
+  pure ((name, vals), ts)
+
+def pWrite : P (Nat × List (String × List Bool)) := fun ts => do
+  let (n, ts) ← pNat ts
+  let (nc, ts) ← pNat ts
+  let (cols, ts) ← pMany pCol nc ts
+  pure ((n, cols), ts)
+
 def handle (ts : List String) : String :=
   match ts with
+  | "mc" :: nw :: r =>
+    match nw.toNat? with
+    | some nw =>
+      match pMany pWrite nw r with
+      | some (ws, []) =>
+        let m := H5Mc.runMc ws
+        let rows := (List.range m.counter).map (fun r =>
+          String.join ((List.range m.keys.length).map (fun k => if m.cell r k then "1" else "0")))
+        s!"keys={",".intercalate m.keys} | {",".intercalate rows}"
+      | _ => "bad-op"
+    | none => "bad-op"
   | "dump" :: r =>
     match pFile r with
     | some (x, []) =>
